@@ -1,0 +1,65 @@
+// Copyright 2021 TiKV Project Authors.
+//
+// Licensed under the Apache License, Version 2.0 (the "License");
+// you may not use this file except in compliance with the License.
+// You may obtain a copy of the License at
+//
+//     http://www.apache.org/licenses/LICENSE-2.0
+//
+// Unless required by applicable law or agreed to in writing, software
+// distributed under the License is distributed on an "AS IS" BASIS,
+// See the License for the specific language governing permissions and
+// limitations under the License.
+
+//go:build verif
+// +build verif
+
+// Machine-checked contracts for leader election (checked by /verif/govc; comment-only file).
+// Ghost state: see server/id/zz_verif_contracts.go.
+package election
+
+//@ pure curLease(ls *Leadership) = asptr(ls.lease.v, lease)
+//@ pure hasLease(ls *Leadership) = ls.lease.v != nil && curLease(ls) != nil
+//@ pure closed(l *lease) = istime(l.expireTime.v) && astime(l.expireTime.v) == zerotime()
+//@ pure leaseTyped(ls *Leadership) = ls.lease.v == nil || (typeisptr(ls.lease.v, lease) && (curLease(ls) == nil || curLease(ls).expireTime.v == nil || istime(curLease(ls).expireTime.v)))
+//@ pure ownerAtCommit(ls *Leadership) = etcdhas0[ls.leaderKey] && etcdval0[ls.leaderKey] == ls.leaderValue
+
+// Campaign succeeds only when no leader record exists at the instant of the commit, and then writes
+// exactly this member's record with the freshly granted lease attached; otherwise nothing is written,
+// the lease is closed (Check() is false afterwards) and an error is returned.
+//@ func (*Leadership).Campaign
+//@   props C03
+//@   requires len(cmps) <= 4
+//@   ensures [onecommit] etcdn[0] <= old(etcdn[0]) + 1
+//@   ensures [ok-committed] result == nil ==> etcdn[0] == old(etcdn[0]) + 1
+//@   ensures [ok-absent] result == nil ==> !etcdhas0[ls.leaderKey]
+//@   ensures [ok-written] result == nil ==> etcdhas[ls.leaderKey] && etcdval[ls.leaderKey] == leaderData && hasLease(ls) && etcdlease[ls.leaderKey] == curLease(ls).ID
+//@   ensures [ok-value] result == nil ==> ls.leaderValue == leaderData
+//@   ensures [present-rejected] etcdn[0] == old(etcdn[0]) + 1 && etcdhas0[ls.leaderKey] ==> etcdn[1] == old(etcdn[1]) && result != nil
+//@   ensures [only-leaderkey] etcdn[0] == old(etcdn[0]) + 1 ==> forall k :: k != ls.leaderKey ==> etcdval[k] == etcdval0[k] && etcdhas[k] == etcdhas0[k]
+//@   ensures [fail-closed] result != nil && etcdn[0] == old(etcdn[0]) + 1 ==> hasLease(ls) && closed(curLease(ls))
+//@   modifies *
+
+// The lease is expired exactly when an expiry time is recorded and the clock has passed it; Close() zeroes it.
+//@ func (*lease).IsExpired
+//@   props C03
+//@   requires l.expireTime.v == nil || istime(l.expireTime.v)
+//@   ensures [never-granted] l.expireTime.v == nil ==> !result
+//@   ensures [granted] l.expireTime.v != nil ==> (result <==> lastnow() > unixnano(astime(l.expireTime.v)))
+//@   modifies nothing
+
+// Check: a leadership is valid iff a lease is present and not expired.
+//@ func (*Leadership).Check
+//@   props C03
+//@   requires ls == nil || leaseTyped(ls)
+//@   option nilrecv
+//@   ensures [nil] ls == nil ==> !result
+//@   ensures [nolease] ls != nil && (ls.lease.v == nil || curLease(ls) == nil) ==> !result
+//@   ensures [valid] ls != nil && ls.lease.v != nil && curLease(ls) != nil && curLease(ls).expireTime.v != nil ==> (result <==> !(lastnow() > unixnano(astime(curLease(ls).expireTime.v))))
+//@   option event Check
+//@   modifies ghost evres
+
+//@ func (*lease).Close
+//@   props C03
+//@   ensures closed(l)
+//@   modifies l.expireTime.v
